@@ -440,6 +440,8 @@ MALFORMATIONS = {
     "no-visit-left": ("v", False), "empty-table": ("vjce", False), "dup-id-event-table": ("e", True),
     "two-event-times": ("j", True), "two-event-indicators": ("j", True), "event-before-last-visit": ("j", True),
     "event-time-not-positive": ("je", True), "event-time-nan": ("je", True), "event-time-inf": ("je", True),
+    # the event age is missing on ONE row of an individual that has it on another row (a NaN-unaware positivity test lets it through)
+    "event-time-nan-one-row": ("j", True), "event-time-not-positive-one-row": ("j", True),
     "event-indicator-fractional": ("je", True), "event-indicator-nan": ("je", True), "no-observed-event": ("je", False),
     "nb-events-mismatch": ("je", False),
     "covariate-fractional": ("c", True), "covariate-varying": ("c", True), "covariate-nan": ("c", True),
@@ -572,6 +574,10 @@ def malform(rng, spec, kind):
                 s["evt"][i] = v
         if kind == "event-time-nan" and L == "event" and s.get("drop_full_nan", True):
             pass
+    elif kind in ("event-time-nan-one-row", "event-time-not-positive-one-row"):
+        if not same:
+            return None
+        s["evt"][k] = NAN if kind == "event-time-nan-one-row" else rng.choice([0.0, -1.0])
     elif kind == "event-indicator-fractional":
         i0 = s["ids"][k]
         for i in range(n):
